@@ -473,7 +473,7 @@ func (p *TextLayoutPango) setup(fonts FontConfiguration, style *TextStyle) {
 	var lang pango.Language
 	if flo := style.FontLanguageOverride; (flo != fontLanguageOverride{}) {
 		lang = language.NewLanguage(lstToISO[flo])
-	} else if lg := style.Lang; lg != "" {
+	} else if lg := style.Lang; len(lg) >= 2 { // shorter tags are invalid (and not handled by the shaper)
 		lang = language.NewLanguage(lg)
 	} else {
 		lang = pango.DefaultLanguage()
